@@ -1867,9 +1867,9 @@ def gen_threshold_case(rng, fn):
 
 
 def threshold_stream(ctx, rng, quick):
-    plan = [('equal_interval', 14 if quick else 150), ('slope', 1 if quick else 10), ('curvature', 1 if quick else 10),
-            ('hillshade', 1 if quick else 10), ('aspect', 1 if quick else 10), ('true_color', 2 if quick else 20),
-            ('hotspots', 1 if quick else 10), ('perlin', 1 if quick else 10), ('generate_terrain', 1 if quick else 6)]
+    plan = [('equal_interval', 10 if quick else 150), ('slope', 1 if quick else 10), ('curvature', 1 if quick else 10),
+            ('hillshade', 1 if quick else 10), ('aspect', 0 if quick else 10), ('true_color', 1 if quick else 20),
+            ('hotspots', 1 if quick else 10), ('perlin', 0 if quick else 10), ('generate_terrain', 0 if quick else 6)]
     for fn, n in plan:
         for _ in range(n):
             c = gen_threshold_case(rng, fn)
